@@ -29,11 +29,19 @@
                                                               sort_total (fuel = length suffices),
                                                               the LSort case of list_step_refines,
                                                               sort_keeps_nodes (iterators stay valid)
+   the relinking code itself (prev/next pointers, &endItem sentinel, _begin, endItem.prev, the free
+   list threaded through prev, allocation of a block of 4 items), statement by statement on a heap
+   of cells, does what the node-level model says and returns the pointer to the node it names
+                                                           -> link_insert_refines, link_remove_refines,
+                                                              link_clear_refines, link_swap_refines,
+                                                              link_append_loop_refines, link_insert_loop_refines,
+                                                              link_observations (forward/backward iteration,
+                                                              find, isEmpty, front, back)
    the pool (4-item blocks, LIFO free list, _size field) stays consistent in every reachable
    state: part of *_step_refines (invariants linv / ainv)  *)
 From Coq Require Import ZArith List Bool Sorting.Sorted Sorting.Permutation.
 From Common Require Import ListAux.
-From Seq Require Import SeqSpec SeqModel SeqSortProofs SeqSortPtrProofs SeqPoolProofs SeqListProofs SeqArrayProofs.
+From Seq Require Import SeqSpec SeqModel SeqSortProofs SeqSortPtrProofs SeqPoolProofs SeqLinkModel SeqLinkProofs SeqListProofs SeqArrayProofs.
 Import ListNotations.
 Local Open Scope Z_scope.
 
@@ -227,3 +235,76 @@ Example sort_as_coded_nonvacuous :
   /\ qs_sort key_full 3 1 3 [9; 3; 2; 1; 0] = Some [9; 1; 2; 3; 0]
   /\ qs_loop key_full 4 0 4 [5; 7; 2; 8; 1] 0 0 0 = Some ([5; 2; 1; 8; 7], 1%nat, 2%nat).
 Proof. vm_compute. repeat split; reflexivity. Qed.
+
+(* ---- List / PoolList relinking at the level of pointers (SeqLinkModel) --------------------------- *)
+(* `repr st l`: following next from _begin gives exactly the nodes of l with matching prev pointers
+   up to &endItem, endItem.prev is the last node, the prev-threaded free list is free l, _size and
+   the block count agree.  ptr_at o k ns = the k-th node of ns, or &endItem for k = length. *)
+Theorem link_insert_refines : forall (st : lstate) (l : nlist) (k : nat) (v : Z),
+    repr st l -> nl_inv l -> (k <= length (nodes l))%nat ->
+    repr (fst (pl_insert (ptr_at (self st) k (nodes l)) v st)) (fst (nl_insert k v l))
+    /\ snd (pl_insert (ptr_at (self st) k (nodes l)) v st) = PNode (snd (nl_insert k v l))
+    /\ self (fst (pl_insert (ptr_at (self st) k (nodes l)) v st)) = self st.
+Proof. exact link_insert. Qed.
+Print Assumptions link_insert_refines.
+
+Theorem link_remove_refines : forall (st : lstate) (l : nlist) (k : nat),
+    repr st l -> nl_inv l -> (k < length (nodes l))%nat ->
+    repr (fst (pl_remove (ptr_at (self st) k (nodes l)) st)) (fst (nl_remove k l))
+    /\ snd (pl_remove (ptr_at (self st) k (nodes l)) st) = ptr_of (self st) (snd (nl_remove k l))
+    /\ self (fst (pl_remove (ptr_at (self st) k (nodes l)) st)) = self st.
+Proof. exact link_remove. Qed.
+Print Assumptions link_remove_refines.
+
+Theorem link_clear_refines : forall (st : lstate) (l : nlist),
+    repr st l -> nl_inv l -> repr (pl_clear st) (nl_clear l) /\ self (pl_clear st) = self st.
+Proof. exact link_clear. Qed.
+Print Assumptions link_clear_refines.
+
+Theorem link_swap_refines : forall (a b : lstate) (la lb : nlist),
+    repr a la -> repr b lb -> nl_inv la -> nl_inv lb ->
+    repr (fst (pl_swap a b)) lb /\ repr (snd (pl_swap a b)) la
+    /\ self (fst (pl_swap a b)) = self a /\ self (snd (pl_swap a b)) = self b.
+Proof. exact link_swap. Qed.
+Print Assumptions link_swap_refines.
+
+Theorem link_append_loop_refines : forall (vs : list Z) (st : lstate) (l : nlist), repr st l -> nl_inv l ->
+    repr (pl_append_all vs st) (nl_append_all vs l) /\ self (pl_append_all vs st) = self st.
+Proof. exact link_append_all. Qed.
+Print Assumptions link_append_loop_refines.
+
+Theorem link_insert_loop_refines : forall (vs : list Z) (st : lstate) (l : nlist) (k : nat),
+    repr st l -> nl_inv l -> (k <= length (nodes l))%nat ->
+    repr (pl_insert_all (ptr_at (self st) k (nodes l)) vs st) (nl_insert_all k vs l)
+    /\ self (pl_insert_all (ptr_at (self st) k (nodes l)) vs st) = self st.
+Proof. exact link_insert_all. Qed.
+Print Assumptions link_insert_loop_refines.
+
+Theorem link_observations : forall (st : lstate) (l : nlist), repr st l -> nl_inv l ->
+    pl_walk (lsz st) (cells st) (begin_ st) = vals (nodes l)
+    /\ pl_walk_back (lsz st) (cells st) (end_prev st) = rev (vals (nodes l))
+    /\ (forall v, pl_find v st = ptr_of (self st) (nl_find v l))
+    /\ pl_is_empty st = match nodes l with [] => true | _ => false end
+    /\ (nodes l <> [] -> Some (pl_front st) = hd_error (vals (nodes l))
+                         /\ Some (pl_back st) = hd_error (rev (vals (nodes l)))).
+Proof. exact link_observe. Qed.
+Print Assumptions link_observations.
+
+Theorem link_initial : forall o : nat, repr (ls_empty o) nl_empty.
+Proof. exact repr_empty. Qed.
+Print Assumptions link_initial.
+
+Example link_nonvacuous :
+  let s0 := ls_empty 7 in
+  let s1 := pl_append_all [1; 2; 3; 4; 5] s0 in                       (* two blocks *)
+  let '(s2, r2) := pl_remove (PNode 2%nat) s1 in                          (* the node of value 2 *)
+  let '(s3, r3) := pl_insert (PNode 0%nat) 9 s2 in                        (* before the node of value 4: reuses slot 2 *)
+  let '(s4, r4) := pl_remove (PNode 3%nat) s3 in                          (* the first node *)
+  let '(a, b) := pl_swap s4 (ls_empty 8) in
+  (pl_walk 5 (cells s1) (begin_ s1), r2, pl_walk 5 (cells s3) (begin_ s3), r3, pl_walk_back 5 (cells s3) (end_prev s3),
+   r4, pl_find 9 s4, pl_find 8 s4, pl_front s4, pl_back s4, lsz s4, lblocks s4,
+   pl_is_empty a, pl_walk 9 (cells b) (begin_ b), pl_find 7 b, lfree (pl_clear b))
+  = ([1; 2; 3; 4; 5], PNode 1%nat, [1; 3; 9; 4; 5], PNode 2%nat, [5; 4; 9; 3; 1],
+     PNode 1%nat, PNode 2%nat, PEnd 7%nat, 3, 5, 4%nat, 2%nat,
+     true, [3; 9; 4; 5], PEnd 8%nat, PNode 7%nat).
+Proof. vm_compute. reflexivity. Qed.
